@@ -72,6 +72,62 @@ theorem dual_is_supergradient_max (p : Prob K) (x y δ : List K) (hs : p.sense =
   have hneg : dot (userPrices .max y) δ = - dot y δ := dot_negList y δ
   rw [hneg]; linarith
 
+/-- SENSITIVITY IS THE DUAL ("the same basis stays optimal").  Let `(x, y)` be a certified optimal pair of `lp` and `δ` a
+perturbation of the right-hand sides.  If the perturbed problem has a feasible point `x'` that is still COMPLEMENTARY to
+`y` — every row with a non-zero multiplier is active at `x'` (`RowsTight`), every variable with a non-zero reduced cost
+`d = c − Σ yᵢaᵢ` sits at the corresponding bound (`BndsTight`); for a unique non-degenerate basis this is the basic
+solution `B⁻¹(b + δ)`, which stays feasible for all small `δ` — then `x'` is optimal for the perturbed problem and
+
+  `opt(b + δ) = c·x' = c·x + y·δ = opt(b) + y·δ`.
+
+Together with `dual_is_subgradient` (the inequality for EVERY `δ`) this is "the shadow price is the rate of change of the
+optimal value".  Partial: the existence of the complementary point for small `δ` (basis stability) is a hypothesis; the
+harness checks it per instance by exact re-solves. -/
+theorem nondegenerate_sensitivity_partial (lp : LP K) (x y δ d : List K) (w : K)
+    (h : checkOptimal lp x y = true) (hδ : δ.length = lp.rows.length)
+    (hred : reduce lp.obj lp.rows y = some (d, w))
+    (x' : List K) (hx' : LpFeasible (perturbLP lp δ) x')
+    (hrows : RowsTight (perturbRows lp.rows δ) y x') (hbnds : BndsTight d lp.bnds x') :
+    dot lp.obj x' = dot lp.obj x + dot y δ ∧
+    ∀ x'', LpFeasible (perturbLP lp δ) x'' → dot lp.obj x' ≤ dot lp.obj x'' := by
+  have hsub := dual_is_subgradient lp x y δ h hδ
+  unfold checkOptimal at h
+  simp only [Bool.and_eq_true, decide_eq_true_eq] at h
+  obtain ⟨⟨hlen, hfeas⟩, hb⟩ := h
+  have hx := lpFeasible_sound hfeas
+  cases hd : dualBound lp.obj lp.rows lp.bnds y with
+  | none => simp [hd] at hb
+  | some v =>
+    simp [hd] at hb
+    have hv : v ≤ dot lp.obj x := dualBound_le lp.obj lp.rows lp.bnds y x v hlen hd hx.1 hx.2
+    unfold dualBound at hd
+    simp only [hred] at hd
+    cases hs : bndSum d lp.bnds with
+    | none => simp [hs] at hd
+    | some s =>
+      simp [hs] at hd
+      have h1 := reduce_tight x' (perturbRows lp.rows δ) lp.obj y d (w + dot y δ)
+        (reduce_perturb lp.rows lp.obj y δ d w hred hδ) hrows
+      have h2 := bndSum_tight d lp.bnds x' s hs hbnds
+      have heq : dot lp.obj x' = dot lp.obj x + dot y δ := by
+        have := hsub x' hx'
+        linarith
+      exact ⟨heq, fun x'' hx'' => by rw [heq]; exact hsub x'' hx''⟩
+
+/-- the same for a perturbation of ONE right-hand side, `δ = t·eᵢ`: the optimal value moves by `yᵢ·t` — the price of row
+`i` is the derivative of the optimal value in `bᵢ`. -/
+theorem sensitivity_single_row_partial (lp : LP K) (x y d : List K) (w : K) (i : Nat) (yi t : K)
+    (h : checkOptimal lp x y = true) (hylen : y.length = lp.rows.length) (hy : y[i]? = some yi)
+    (hred : reduce lp.obj lp.rows y = some (d, w))
+    (x' : List K) (hx' : LpFeasible (perturbLP lp (unitVec y.length i t)) x')
+    (hrows : RowsTight (perturbRows lp.rows (unitVec y.length i t)) y x') (hbnds : BndsTight d lp.bnds x') :
+    dot lp.obj x' = dot lp.obj x + yi * t ∧
+    ∀ x'', LpFeasible (perturbLP lp (unitVec y.length i t)) x'' → dot lp.obj x' ≤ dot lp.obj x'' := by
+  have := nondegenerate_sensitivity_partial lp x y (unitVec y.length i t) d w h
+    (by rw [unitVec_length, hylen]) hred x' hx' hrows hbnds
+  rw [dot_unitVec y i yi t hy] at this
+  exact this
+
 /-- COMPLEMENTARY SLACKNESS: in a certified optimal pair an INACTIVE row (`a·x ≠ b`) has multiplier 0 — inactive rows
 report a zero price. -/
 theorem inactive_row_zero_price (lp : LP K) (x y : List K) (h : checkOptimal lp x y = true)
@@ -204,5 +260,19 @@ theorem named_row_price (duals : List (String × Ext K)) (name : String) (hn : n
 example : @checkOptimal ℚ (fieldExact ℚ) ⟨[1], [⟨[1], .ge, 1⟩, ⟨[1], .le, 5⟩], [⟨none, none⟩]⟩ [1] [1, 0] = true := by
   simp [checkOptimal, lpFeasible, rowHolds, bndsHold, bndHolds, loHolds, hiHolds, dualBound, reduce, signOk,
     rowSub, bndSum, bndTerm]
+
+section sens_example
+attribute [local instance 2000] fieldExact
+/-- `nondegenerate_sensitivity_partial` / `sensitivity_single_row_partial`: `min x s.t. x ≥ 1` (multiplier 1), right-hand
+side moved by `t`: the point `x' = 1 + t` is feasible, the row stays active, the reduced cost is 0 — all hypotheses
+hold, for every `t`. -/
+example (t : ℚ) :
+    reduce ([1] : List ℚ) [⟨[1], .ge, 1⟩] [1] = some ([0], 1) ∧
+    LpFeasible (perturbLP (⟨[1], [⟨[1], .ge, 1⟩], [⟨none, none⟩]⟩ : LP ℚ) (unitVec 1 0 t)) [1 + t] ∧
+    RowsTight (perturbRows ([⟨[1], .ge, 1⟩] : List (Row ℚ)) (unitVec 1 0 t)) [1] [1 + t] ∧
+    BndsTight ([0] : List ℚ) [⟨none, none⟩] [1 + t] := by
+  refine ⟨by simp [reduce, signOk, rowSub], ?_, by simp [RowsTight, perturbRows, unitVec], by simp [BndsTight]⟩
+  simp [LpFeasible, perturbLP, perturbRows, unitVec, RowSat, BndsSat, BndSat]
+end sens_example
 
 end Rooc.Props.C20
